@@ -29,7 +29,9 @@ from pyvc.textio import PathI, TextOutI, TextFileI, BufferedOutI
 from pyvc.values import Opaque, to_z3, wrap
 from contracts.common import implies, iff, is_opaque
 from contracts.text_spec import is_split_nl
-from contracts.C14_text_value import (DirFileSpaceI, SSC, file_text, file_stored, written, decoded, ctx_lines, _res)
+from contracts.C14_text_value import (txt_of, implements_i_ssc, DirFileSpaceI, SSC, file_text, file_stored, written, decoded, ctx_lines, _res,
+                                      SPOOLED, spooled_written, spooled_ok, _havoc_spooled)
+from exactly_lib.util.file_utils import spooled_file
 
 from exactly_lib.impls.types.string_source.command_output import exit_ignored, exit_relevant
 from exactly_lib.impls.types.string_source.contents import contents_via_write_to, contents_via_file
@@ -140,6 +142,11 @@ def _execute(interp, self, args, kwargs):
         f = _res(interp, f)
         if isinstance(f, int) and f == subprocess.DEVNULL:
             continue
+        if isinstance(f, spooled_file.SpooledTextFile):
+            # subprocess asks the file for its descriptor: the REAL `fileno()` rolls the buffer over to disk
+            # (contract of `_rollover`); the child then writes through the descriptor of the file on disk
+            interp.call(interp.getattr(f, 'fileno'), [], {})
+            f = _res(interp, f._file)
         if not isinstance(f, Opaque):
             raise Unsupported('a process is given %r as an output file' % (f,))
         textio.child_writes(interp, f, interp.reg.call_opaque(interp, command, what, [t], {}))
@@ -218,20 +225,44 @@ def _havoc_out(interp, out, tag):
             g['pending'] = p
 
 
+def out_written(out):
+    """what has been written to an output: a TextIO with a buffer, or a SpooledTextFile (frozen__from_write)"""
+    if is_opaque(out):
+        return written(out)
+    return spooled_written(out)
+
+
+def _havoc_any_out(interp, out, tag):
+    if isinstance(out, spooled_file.SpooledTextFile):
+        return _havoc_spooled(interp, out, tag)
+    return _havoc_out(interp, out, tag)
+
+
+ANY_OUT = Union(Iface(BufferedOutI), SPOOLED)
+_SPOOLED_OK = 'a SpooledTextFile is left on disk, in a state from which writing goes on at the end (spooled_ok)'
+
+
+def _spooled_left_ok(out):
+    """... and it is ON DISK: the child process was given its descriptor (`fileno()` rolls the buffer over)"""
+    return is_opaque(out) or (spooled_ok(out) and out._path is not None)
+
+
 _APPENDS = 'appends exactly the text of the program (what was written before is flushed before the child writes)'
 
 M.contract(P_EXI + ':_WriterBase.write',
-           params=dict(self=EXIT_IGNORED_WRITER, tmp_file_space=Iface(DirFileSpaceI), output=Iface(BufferedOutI)),
-           old=lambda output: written(output),
-           modifies={'output': InPlaceBy(_havoc_out)},
-           ensures={_APPENDS: lambda self, output, old: written(output) == old + prog_txt(self)},
+           params=dict(self=EXIT_IGNORED_WRITER, tmp_file_space=Iface(DirFileSpaceI), output=ANY_OUT),
+           old=lambda output: out_written(output),
+           modifies={'output': InPlaceBy(_havoc_any_out)},
+           ensures={_APPENDS: lambda self, output, old: out_written(output) == old + prog_txt(self),
+                    _SPOOLED_OK: lambda output: _spooled_left_ok(output)},
            may_raise=(HardErrorException,), raises_only=(HardErrorException,))
 
 M.contract(P_EXR + ':StdoutWriter.write',
-           params=dict(self=EXIT_RELEVANT_WRITER, tmp_file_space=Iface(DirFileSpaceI), output=Iface(BufferedOutI)),
-           old=lambda output: written(output),
-           modifies={'output': InPlaceBy(_havoc_out)},
-           ensures={_APPENDS: lambda self, output, old: written(output) == old + prog_txt(self),
+           params=dict(self=EXIT_RELEVANT_WRITER, tmp_file_space=Iface(DirFileSpaceI), output=ANY_OUT),
+           old=lambda output: out_written(output),
+           modifies={'output': InPlaceBy(_havoc_any_out)},
+           ensures={_APPENDS: lambda self, output, old: out_written(output) == old + prog_txt(self),
+                    _SPOOLED_OK: lambda output: _spooled_left_ok(output),
                     'returns only if the exit code is 0': lambda self: prog_exit(self) == 0},
            may_raise=(HardErrorException,), raises_only=(HardErrorException,))
 
@@ -279,10 +310,11 @@ def transformed_txt(tw, source):
 
 
 M.contract(P_TBP + ':_TransformationWriter.write',
-           params=dict(self=TRANSFORMATION_WRITER, source=SSC, output=Iface(BufferedOutI)),
-           old=lambda output: written(output),
-           modifies={'output': InPlaceBy(_havoc_out)},
-           ensures={_APPENDS: lambda self, source, output, old: written(output) == old + transformed_txt(self, source),
+           params=dict(self=TRANSFORMATION_WRITER, source=SSC, output=ANY_OUT),
+           old=lambda output: out_written(output),
+           modifies={'output': InPlaceBy(_havoc_any_out)},
+           ensures={_APPENDS: lambda self, source, output, old: out_written(output) == old + transformed_txt(self, source),
+                    _SPOOLED_OK: lambda output: _spooled_left_ok(output),
                     'returns only if the exit code is 0 or ignored': lambda self, source:
                     self._ignore_exit_code or self.transformer.EXIT(source.txt) == 0},
            may_raise=(HardErrorException,), raises_only=(HardErrorException,))
@@ -307,10 +339,11 @@ def writer_of_transformed_txt(w):
 
 
 M.contract(P_TSSI + ':_WriterOfTransformed.write',
-           params=dict(self=WRITER_OF_TRANSFORMED, tmp_file_space=Iface(DirFileSpaceI), output=Iface(BufferedOutI)),
-           old=lambda output: written(output),
-           modifies={'output': InPlaceBy(_havoc_out)},
-           ensures={_APPENDS: lambda self, output, old: written(output) == old + writer_of_transformed_txt(self)},
+           params=dict(self=WRITER_OF_TRANSFORMED, tmp_file_space=Iface(DirFileSpaceI), output=ANY_OUT),
+           old=lambda output: out_written(output),
+           modifies={'output': InPlaceBy(_havoc_any_out)},
+           ensures={_APPENDS: lambda self, output, old: out_written(output) == old + writer_of_transformed_txt(self),
+                    _SPOOLED_OK: lambda output: _spooled_left_ok(output)},
            may_raise=(HardErrorException,), raises_only=(HardErrorException,))
 
 
@@ -375,19 +408,23 @@ for _q, _shape in ((P_CVWT + ':ContentsViaWriteTo', CONTENTS_VIA_PROGRAM), (P_CV
     M.contract(_q + '.tmp_file_space', params=dict(self=_shape), inline=True,
                ensures={'the space it was given': lambda self, result: is_opaque(result)}, raises_only=())
 
-M.contract(P_CVF + ':ContentsViaFile.write_to', params=dict(self=CONTENTS_VIA_STDERR_FILE, output=Iface(BufferedOutI)),
-           inline=True, old=lambda self, output: (written(output), prog_txt_of(self)),
+M.contract(P_CVF + ':ContentsViaFile.write_to', params=dict(self=CONTENTS_VIA_STDERR_FILE, output=ANY_OUT),
+           inline=True, old=lambda self, output: (out_written(output), prog_txt_of(self)),
            ensures={'appends txt (output of the program)':
-                    lambda self, output, old: written(output) == old[0] + prog_txt_of(self),
+                    lambda self, output, old: out_written(output) == old[0] + prog_txt_of(self),
+                    'a SpooledTextFile is left in a state from which writing goes on at the end (spooled_ok)':
+                    lambda output: is_opaque(output) or spooled_ok(output),
                     **_reread(at=1)},
            raises_only=(HardErrorException,))
 
-M.contract(P_CVWT + ':ContentsViaWriteTo.write_to', params=dict(self=CONTENTS_VIA_PROGRAM, output=Iface(BufferedOutI)),
-           inline=True, old=lambda self, output: (written(output), prog_txt_of(self), self._as_file_path),
+M.contract(P_CVWT + ':ContentsViaWriteTo.write_to', params=dict(self=CONTENTS_VIA_PROGRAM, output=ANY_OUT),
+           inline=True, old=lambda self, output: (out_written(output), prog_txt_of(self), self._as_file_path),
            ensures={'once the file exists: appends txt (output of the program)':
-                    lambda self, output, old: old[2] is None or written(output) == old[0] + prog_txt_of(self),
+                    lambda self, output, old: old[2] is None or out_written(output) == old[0] + prog_txt_of(self),
                     'before the file exists: appends the text as the program writes it':
-                    lambda self, output, old: old[2] is not None or written(output) == old[0] + raw_txt(self),
+                    lambda self, output, old: old[2] is not None or out_written(output) == old[0] + raw_txt(self),
+                    'a SpooledTextFile is left in a state from which writing goes on at the end (spooled_ok)':
+                    lambda output: is_opaque(output) or spooled_ok(output),
                     **_reread(at=1)},
            raises_only=(HardErrorException,))
 
@@ -451,3 +488,34 @@ M.contract(P_CSS + ':_contents',
                     'the exit code matters unless it is to be ignored': lambda ignore_exit_code, result:
                     ignore_exit_code == (type(_starter(result)) in (exit_ignored.StdoutWriter, exit_ignored.StderrWriter))},
            raises_only=())
+
+
+# ============================================================================== freezing the output of a program
+# `_FreezingStringSourceContents._new_frozen` -> frozen__from_write(size, _ContentsWriter(contents), ...): the writer
+# is given a SpooledTextFile.  A program writer hands it to the child process: subprocess asks for `fileno()`, the REAL
+# SpooledTextFile rolls over to disk (whatever the size of the buffer) and the child writes into the file on disk.
+# So -- other than for writers that only call write / writelines (contracts/C14_text_value.py, where that branch is
+# infeasible) -- a SHORT output of a program is frozen as `_StringSourceContentsOfConstStrAndExistingPath`.
+
+from exactly_lib.impls.types.string_source import cached_frozen          # noqa: E402
+from exactly_lib.impls.types.string_source.contents import frozen, contents_of_str          # noqa: E402
+
+PROGRAM_CONTENTS_WRITER = Inst(cached_frozen._ContentsWriter,
+                               _contents=Union(CONTENTS_VIA_PROGRAM, CONTENTS_VIA_STDERR_FILE))
+
+M.contract('exactly_lib.impls.types.string_source.contents.frozen:frozen__from_write',
+           params=dict(mem_buff_size=Int, writer=PROGRAM_CONTENTS_WRITER, tmp_file_space=Iface(DirFileSpaceI),
+                       file_name=Opt(Str)),
+           requires=lambda mem_buff_size: mem_buff_size >= 1,
+           old=lambda writer: (prog_txt_of(writer._contents), writer._contents._as_file_path),
+           ensures={
+               'the frozen text is the text of the program output, whatever the size of the buffer':
+               lambda writer, result, old: txt_of(result) == old[0],
+               'implements I_SSC': lambda result: implements_i_ssc(result),
+               'the program is not run again when its output is in a file already': lambda writer, old:
+               old[1] is None or writer._contents._as_file_path is old[1],
+               'output that the program itself wrote is frozen on disk (a short one: as string and file)':
+               lambda writer, result, old: old[1] is not None or isinstance(writer._contents, contents_via_file.ContentsViaFile)
+               or not isinstance(result, contents_of_str.ContentsOfStr),
+           },
+           may_raise=(HardErrorException,), raises_only=(HardErrorException,))
